@@ -13,7 +13,8 @@ EXTENDS Naturals, Sequences, FiniteSets
 
 NewBridge(ports) == [ports |-> ports, running |-> FALSE, bound |-> {}, closing |-> {}, occupied |-> {}]
 PortSet(B) == {B.ports[k] : k \in 1..Len(B.ports)}
-Busy(B, p) == p \in B.occupied \/ p \in B.bound \/ p \in B.closing
+ValidPort(p) == p >= 0 /\ p <= 65535          \* binding any other number fails (with an error that is not an OSError)
+Busy(B, p) == p \in B.occupied \/ p \in B.bound \/ p \in B.closing \/ ~ValidPort(p)
 \* binding happens port by port in configured order; a port listed twice is busy the second time
 BusyAt(B, k) == Busy(B, B.ports[k]) \/ \E j \in 1..(k - 1) : B.ports[j] = B.ports[k]
 FailsAt(B) == LET ks == {k \in 1..Len(B.ports) : BusyAt(B, k)} IN
